@@ -41,6 +41,17 @@ macro_rules! define_hasher {
             }
         }
 
+        /// Verification hook (only with `--cfg cryptocorrosion_verif`): read / overwrite the byte counter.
+        #[cfg(cryptocorrosion_verif)]
+        impl $name {
+            pub fn verif_counter(&self) -> u128 {
+                self.datalen as u128
+            }
+            pub fn verif_set_counter(&mut self, v: u128) {
+                self.datalen = v as usize;
+            }
+        }
+
         impl Default for $name {
             fn default() -> Self {
                 Self {
